@@ -18,7 +18,7 @@ class Q(object):
                  remove_bodies=(), info=None, units=(), incs=(),
                  patches=(), gen=None, extra_cbmc=(), nowitness=False,
                  tiers=("quick", "thorough"),
-                 cflags=(), slow=False):
+                 cflags=(), slow=False, unwind_fn=None):
         self.name = name
         # srcs: paths relative to the property directory, or "repo:<rel>" for a
         # real translation unit compiled as its own TU (link style), or an
@@ -53,6 +53,7 @@ class Q(object):
         self.nowitness = nowitness
         self.tiers = tuple(tiers)
         self.cflags = list(cflags)
+        self.unwind_fn = dict(unwind_fn or {})   # {function name: unwind bound for all its loops}
         self.slow = slow              # counts as a >=3GB query for the parallelism cap
 
 
